@@ -39,6 +39,9 @@ EXTRA = [
     ["reduce", {"strategy": "recursive", "window_length": 4, "reg": "tsf"}],
     ["pipeline", {}, [], ["naive", {"strategy": "last"}]],                 # a pipeline that consists of its forecaster only
     ["pipeline", {}, [], ["poly", {"degree": 1}]],
+    # two steep transformers in a row: an update batch that reached the forecaster in another representation than the training data would
+    # come back through exp(exp(.)) as a non-finite forecast
+    ["pipeline", {}, [["log", {}], ["log", {}]], ["naive", {"strategy": "last"}]],
     ["ensemble", {"aggfunc": "mean", "n_jobs": 2}, [["naive", {"strategy": "last"}], ["poly", {"degree": 1}], ["naive", {"strategy": "drift"}]]],
 ]
 
@@ -148,6 +151,29 @@ def run_case(case, ctx):
             ctx.check("predict.index", [int(v) for v in p6.index] == exp_idx, "predict:same-numbers-as-steps:labelled-like-the-earlier-absolute-request:" + spec[0],
                       "after the absolute time points S the relative steps S were not answered with labels cutoff + S", got=[int(v) for v in p6.index], expected=exp_idx)
         ctx.tag("same-numbers-other-meaning")
+    # ---- two composites built from THE SAME component objects are separate once fitted: fitting the second on a later series does not
+    # move the first one's forecasts ---------------------------------------------------------------------------------------------
+    if spec[0] in ("ensemble", "stack", "online", "multiplex", "pipeline") and case["dseed"] % 3 == 0:
+        try:
+            fa_ = zoo.build(spec)
+            fb_ = type(fa_)(**fa_.get_params(deep=False))
+            need = zoo.requires_fh_in_fit(spec)
+            fa_.fit(y.copy(), fh=list(fh) if need else None)
+            y_later = pd.Series(np.asarray(y, dtype=float) * 1.5 + 2.0, index=y.index + 57)
+            fb_.fit(y_later, fh=list(fh) if need else None)
+            shared_ok = True
+        except Exception as e:  # noqa
+            shared_ok = False
+            ctx.tag("shared-components:setup-failed:" + type(e).__name__)
+        if shared_ok:
+            ok, pa_ = ctx.call("predict:exception:" + spec[0], fa_.predict, None if need else list(fh))
+            if ok:
+                ctx.check("predict.index", [int(v) for v in pa_.index] == exp_idx and int(fa_.cutoff) == cutoff, "predict:composite-sharing-component-objects:labelled-from-the-other-composite-s-cutoff:" + spec[0],
+                          "after a second composite holding the same component objects was fitted on a later series, the first one's forecast is not labelled from its own cutoff",
+                          got=[int(v) for v in pa_.index], expected=exp_idx)
+                ctx.check("rel==abs", _vals_close(np.asarray(pa_, dtype=float), np.asarray(p, dtype=float)), "predict:composite-sharing-component-objects:values-changed:" + spec[0],
+                          "... and its values differ from those of the composite fitted alone", got=np.asarray(pa_, dtype=float).tolist()[:4], expected=np.asarray(p, dtype=float).tolist()[:4])
+            ctx.tag("shared-component-objects")
     # ---- each step's value belongs to that step: a horizon with gaps / a late start is a sub-selection of the full one --------
     full_fh = list(range(1, max(fh) + 1))
     if fh != full_fh and zoo.horizon_separable(spec):
